@@ -154,6 +154,7 @@ def generic_run(ctx, compare, oracle_props, micro_prefixes=None, known_ids=(), e
                 ctx["broken"].append(f"correspondence model/implementation on {name}: {d[0][:300]} || minimal program: {small!r}")
             if len(ctx["broken"]) + len(ctx["violations"]) > 5:
                 break
+    cov["input_samples"] = [{"id": n_, "program": t_} for n_, t_, _m, _a, _b in (results[len(results) // 3:len(results) // 3 + 1] + results[-1:])]
     cov["traces_validated_against_impl"] = len(results)
     cov["evaluations"] = len(results)
     cov["distinct_nontrivial"] = len(distinct)
@@ -349,6 +350,7 @@ def run_lines(compare_keys):
                 nd += 1
                 if nd <= 3:
                     ctx["broken"].append(f"correspondence on line {text!r} (version {ver}): {d[0][:200]}")
+        cov["input_samples"] = [{"line": t_, "version": v_, "kind": k_} for t_, v_, k_ in ls[:3]]
         cov["traces_validated_against_impl"] = len(ls)
         cov["evaluations"] = len(ls)
         cov["distinct_nontrivial"] = len(set(t for t, _, _ in ls))
@@ -949,6 +951,10 @@ def group_semantics_oracle(meta, verdict):
     import avm
     pos, ids, fld, ty, progs = meta["pos"], meta["ids"], meta["field"], meta["type"], meta["programs"]
     det = FIELD_DETECTOR[fld]
+    # known finding D16 (flat kind-label set): a comparison of TypeEnum / OnCompletion / ApplicationID can drop the Pay / Axfer
+    # label, which silences the two type-dependent detectors; such member programs are outside this oracle
+    if fld in ("CloseRemainderTo", "AssetCloseTo") and any(re.search(r"\b(TypeEnum|OnCompletion|ApplicationID)\b", t) for t in progs):
+        return []
     size = max(pos) + 1
     tenum = {"CloseRemainderTo": 1, "AssetCloseTo": 4}.get(fld, 1 if ty in ("Pay", "Any") else 4)
     out = []
